@@ -90,6 +90,7 @@ class LFDomain:
         self.exact_fired = 0
         self.global_memo = {}
         self.trust_stage0 = True
+        self.share_memo = False   # share divmod atoms across paths (only for fork-free kernels)
         self.feas_timeout_ms = 4000
         self.lemmas = []  # extra LFConds assumed in every query (justified by the harness)
 
@@ -207,7 +208,7 @@ class LFDomain:
         if 0 <= lo and hi < m:
             return LF(), f
         ef = self.expand(f)
-        memo = path.dstate.setdefault("lf_memo", {}) if path is not None else self.global_memo
+        memo = path.dstate.setdefault("lf_memo", {}) if (path is not None and not self.share_memo) else self.global_memo
         key = (ef.key(), m)
         if key in memo:
             return memo[key]
@@ -453,6 +454,11 @@ class LFDomain:
 
     def assume(self, path, c, orig, branch):
         pass
+
+    def cond_key(self, c):
+        if c.f is not None:
+            return (c.op, c.f.key())
+        return (c.op, tuple(self.cond_key(a) if isinstance(a, LFCond) else a for a in (c.args or [])))
 
     def feasible(self, path, conds):
         r = self.check(path, conds, "feasibility", timeout_ms=self.feas_timeout_ms)
